@@ -53,7 +53,7 @@ package bulking
 
 //@ func (b *Bulker) Run(ctx context.Context, bulk Bulk, result chan BulkElementResult, bulkOptions BulkingOptions) (err error)
 //@   property C32 C38
-//@   modifies nRun, lastRunCtrl, lastRunHasError, ctrlWrites, lastWriteCtrl, lastIK, lastSchemaVersion, lastDryRun, nCtrlBegin, lastTxCtrl, nCtrlCommit, nCtrlRollback
+//@   modifies nRun, lastRunCtrl, lastRunHasError, ctrlWrites, lastWriteCtrl, lastIK, lastSchemaVersion, lastDryRun, nCtrlBegin, lastTxCtrl, nCtrlCommit, lastCommitCtrl, nCtrlRollback
 //@   ensures bulkOptions.Atomic && bulkOptions.Parallel ==> err != nil && nRun == old(nRun) && nCtrlBegin == old(nCtrlBegin)
 //@   ensures nRun <= old(nRun) + 1
 //@   ensures !bulkOptions.Atomic ==> nCtrlBegin == old(nCtrlBegin) && nCtrlCommit == old(nCtrlCommit) && nCtrlRollback == old(nCtrlRollback)
